@@ -81,6 +81,7 @@ func plan(prop, tier string) []Part {
 			{Name: "race", N: q(tier, 240, 6000), Chunk: 20, Race: true, Procs: []int{4, 16, 2}, Timeout: 20 * time.Minute},
 			{Name: "race-nq", N: q(tier, 80, 2000), Chunk: 20, Race: true, Procs: []int{4, 16}, Timeout: 20 * time.Minute},
 			{Name: "race-err", N: q(tier, 80, 2000), Chunk: 20, Race: true, Procs: []int{4, 16}, Timeout: 20 * time.Minute},
+			{Name: "race-more", N: q(tier, 120, 3000), Chunk: 20, Race: true, Procs: []int{4, 16, 2}, Timeout: 20 * time.Minute},
 			{Name: "race-go126", N: q(tier, 0, 4000), Chunk: 20, Race: true, Procs: []int{4, 16, 2}, Toolchain: "go1.26.8", Timeout: 20 * time.Minute},
 		}
 	case "C04":
@@ -181,7 +182,7 @@ var rules = map[string]string{
 	"C04": "cases = seeded scenarios (container config x bars x client programs x director; H(VERIF_SEED, property, part, index)) executed against the real library in worker children with hook-driven delays/triggers and GOMAXPROCS cycled over the part's list; parts mem (in-memory writer) / pty (real pseudo terminal, rows 1-24 x cols 20-200) / none (no refresh) / delay. Every frame is replayed through the terminal emulator and the tape invariant (persisted lines append-only ++ this frame's rows, nothing in scrollback, no autowrap, cursor position) is checked after each. Non-trivial = two consecutive frames differ in row count, or (pty) a frame reaches the usable terminal height; for part none: the container has at least one bar. distinct = distinct interleaving signatures among the non-trivial scenarios",
 	"C05": "cases = seeded scenarios (container config x bars x client programs x director; H(VERIF_SEED, property, part, index)) executed against the real library in worker children with hook-driven delays/triggers and GOMAXPROCS cycled over the part's list; Add from several clients while rendering, completion, abort with/without drop, removal, pop, queue-after, n > q; parts mixed / nq / err / queue. Per frame: one row group per bar, no unknown id; per bar: contiguous interval of frames, prompt first appearance by hook timestamps, leaves only when terminal and of a leaving kind, render counter strictly newer; notifier list vs last frame. Non-trivial = the set of displayed bars changed in at least two frames (err part: more than one bar). distinct = distinct interleaving signatures among the non-trivial scenarios",
 	"C06": "cases = seeded scenarios (container config x bars x client programs x director; H(VERIF_SEED, property, part, index)) executed against the real library in worker children with hook-driven delays/triggers and GOMAXPROCS cycled over the part's list; parts manual (change -> refresh -> read frame) / auto (concurrent changes) / pop. Every frame must be sorted under some assignment of applied-or-ambiguous priority values; successor rank; pop order by finishing cycle. Non-trivial = at least two frames were order-checked and the scenario has a priority update, a pop event or more than two bars. distinct = distinct interleaving signatures among the non-trivial scenarios",
-	"C10": "part lin: cases = seeded scenarios (container config x bars x client programs x director; H(VERIF_SEED, property, part, index)) executed against the real library in worker children with hook-driven delays/triggers and GOMAXPROCS cycled over the part's list; 2-6 clients x 4-12 operations on 1-3 shared bars, recorded at the client boundary {client, op, args, invoke, result, return} with one logical clock, checked per bar by porcupine against the Appendix-B machine (non-deterministic after the terminal transition). Non-trivial = at least two operations of different clients on one bar overlap in time; distinct = distinct interleaving signatures. Parts race*: worker built with -race (hooks and logical clock off), scenario families of C01/C02/C13/C14/C15 plus a getter-hammering family; decided by the race detector's reports (counted from GORACE log files, deduplicated by library function pair); non-trivial = at least two client goroutines; distinct = distinct scenario seeds",
+	"C10": "part lin: cases = seeded scenarios (container config x bars x client programs x director; H(VERIF_SEED, property, part, index)) executed against the real library in worker children with hook-driven delays/triggers and GOMAXPROCS cycled over the part's list; 2-6 clients x 4-12 operations on 1-3 shared bars, recorded at the client boundary {client, op, args, invoke, result, return} with one logical clock, checked per bar by porcupine against the Appendix-B machine (non-deterministic after the terminal transition). Non-trivial = at least two operations of different clients on one bar overlap in time; distinct = distinct interleaving signatures. Parts race*: worker built with -race (hooks and logical clock off), scenario families of C01/C02/C13/C14/C15 plus a getter-hammering family; decided by the race detector's reports (counted from GORACE log files, deduplicated by library function pair); plus part race-more (queue-after hand-overs, pop mode with late successors, several goroutines parked in Progress.Wait, the terminal path on a pty); non-trivial = the scenario has a bar and either two client goroutines or at least six client calls running against the library's render and bar goroutines; distinct = distinct scenario seeds",
 	"C11": "cases = seeded scenarios (container config x bars x client programs x director; H(VERIF_SEED, property, part, index)) executed against the real library in worker children with hook-driven delays/triggers and GOMAXPROCS cycled over the part's list; histories that cross the terminal transition and keep going (Abort at current = total, increments after Abort, cancel placed by trigger at bar.trigger / flush.bar / bar.exit, reads before/during/after the bar's shutdown). Per bar a flag monitor is fed by every client read, every marker row and the post-Wait getters. Non-trivial = for some bar a true flag was observed and the bar has more than two observations (the monitor saw it before and after the transition). distinct = distinct interleaving signatures among the non-trivial scenarios",
 	"C12": "cases = seeded scenarios (container config x bars x client programs x director; H(VERIF_SEED, property, part, index)) executed against the real library in worker children with hook-driven delays/triggers and GOMAXPROCS cycled over the part's list; 2-12 bars with 0-3 synchronised + plain decorators per side in every mix, membership changes between frames, n > q. Field extents are recovered from the rows; the common width of each column must equal the maximum need over the bars shown in that frame. Non-trivial = at least four synchronised fields were checked over at least two frames. distinct = distinct interleaving signatures among the non-trivial scenarios",
 	"C13": "cases = seeded scenarios (container config x bars x client programs x director; H(VERIF_SEED, property, part, index)) executed against the real library in worker children with hook-driven delays/triggers and GOMAXPROCS cycled over the part's list; 1-8 writer goroutines with unique payloads (buffers overwritten right after Write returns) interleaved with render cycles, completion and shutdown; parts mixed / err. Each accepted payload must occur exactly once, unmodified, above the rows of its frame, in an order consistent with the call intervals, by the last frame. Non-trivial = a Write overlapped a render cycle or the done event, or more than three texts were located. distinct = distinct interleaving signatures among the non-trivial scenarios",
